@@ -252,7 +252,8 @@ theorem foldl_linkOK {cfg : Cfg} (hdry : cfg.dryRun = false) (flt : Faults) {S :
 structure LocalPost (cfg : Cfg) (before : Option DNode) (t : Task) (after : Option DNode) : Prop where
   skip : (t.act = .skip ∨ t.payload = .nothing) → after = before
   dir : t.act ≠ .skip → t.payload = .dir → t.rel ≠ [] → after = some .dir
-  dir_pre : t.act ≠ .skip → t.payload = .dir → t.rel ≠ [] → before = none ∨ before = some .dir
+  dir_pre : t.act ≠ .skip → t.payload = .dir → t.rel ≠ [] →
+    before = none ∨ before = some .dir ∨ (t.act = .update ∧ ∃ s, before = some (.symlink s))
   symlink : t.act ≠ .skip → ∀ text, t.payload = .symlink text → after = some (.symlink text)
   file : t.act ≠ .skip → ∀ m n, t.payload = .file m n →
     ∃ d, after = some (.file d) ∧ Matches cfg d m ∧
@@ -294,7 +295,8 @@ structure TaskPost (cfg : Cfg) (dst0 : Map DNode) (ts : List Task) (t : Task) (a
         ∃ t' ∈ ts, isPrefix t.rel t'.rel = true ∧ t'.rel ≠ t.rel ∧ t'.act ≠ .delete ∧ t'.act ≠ .skip)
   dir : t.act ≠ .skip → t.payload = .dir → t.rel ≠ [] → after = some .dir
   dir_pre : t.act ≠ .skip → t.payload = .dir → t.rel ≠ [] →
-    dst0.get? t.rel = none ∨ dst0.get? t.rel = some .dir
+    dst0.get? t.rel = none ∨ dst0.get? t.rel = some .dir ∨
+      (t.act = .update ∧ ∃ s, dst0.get? t.rel = some (.symlink s))
   symlink : t.act ≠ .skip → ∀ text, t.payload = .symlink text → after = some (.symlink text)
   file : t.act ≠ .skip → ∀ m n, t.payload = .file m n →
     ∃ d, after = some (.file d) ∧ Matches cfg d m ∧
